@@ -63,13 +63,20 @@ class BBUnitaryChecker(ast.NodeVisitor):
         self.flags = unitary_flags
         for stmt in bb.statements:
             self.visit(stmt)
+        # The branch predicate is not part of the statements, but calls inside it are
+        # subject to the same unitarity constraints
+        if bb.branch_pred is not None:
+            self.visit(bb.branch_pred)
 
     def _check_classical_args(self, args: list[ast.expr]) -> bool:
+        # Visit *all* arguments (they could contain nested calls) before deciding
+        # whether the call is classical
+        classical = True
         for arg in args:
             self.visit(arg)
             if contain_qubit_ty(get_type(arg)):
-                return False
-        return True
+                classical = False
+        return classical
 
     def _check_call(self, node: AnyCall, ty: FunctionType) -> None:
         classic = self._check_classical_args(node.args)
